@@ -189,3 +189,130 @@ func HeldMutexes() int {
 	}
 	return n
 }
+
+// ---------- sync.Map (an association list per map object; keys compared with ==) ----------
+
+type ghostSyncMap struct {
+	keys []interface{}
+	vals []interface{}
+}
+
+var syncMaps = map[*sync.Map]*ghostSyncMap{}
+
+func syncMapOf(m *sync.Map) *ghostSyncMap {
+	g := syncMaps[m]
+	if g == nil {
+		g = &ghostSyncMap{}
+		syncMaps[m] = g
+	}
+	return g
+}
+
+func (g *ghostSyncMap) find(key interface{}) int {
+	for i := range g.keys {
+		if g.keys[i] == key {
+			return i
+		}
+	}
+	return -1
+}
+
+//verif:replace (*sync.Map).Load
+func SyncMapLoad(m *sync.Map, key interface{}) (interface{}, bool) {
+	g := syncMapOf(m)
+	if i := g.find(key); i >= 0 {
+		return g.vals[i], true
+	}
+	return nil, false
+}
+
+//verif:replace (*sync.Map).Store
+func SyncMapStore(m *sync.Map, key, value interface{}) {
+	g := syncMapOf(m)
+	if i := g.find(key); i >= 0 {
+		g.vals[i] = value
+		return
+	}
+	g.keys = append(g.keys, key)
+	g.vals = append(g.vals, value)
+}
+
+//verif:replace (*sync.Map).LoadOrStore
+func SyncMapLoadOrStore(m *sync.Map, key, value interface{}) (interface{}, bool) {
+	g := syncMapOf(m)
+	if i := g.find(key); i >= 0 {
+		return g.vals[i], true
+	}
+	g.keys = append(g.keys, key)
+	g.vals = append(g.vals, value)
+	return value, false
+}
+
+//verif:replace (*sync.Map).Delete
+func SyncMapDelete(m *sync.Map, key interface{}) {
+	g := syncMapOf(m)
+	if i := g.find(key); i >= 0 {
+		g.keys = append(g.keys[:i], g.keys[i+1:]...)
+		g.vals = append(g.vals[:i], g.vals[i+1:]...)
+	}
+}
+
+//verif:replace (*sync.Map).LoadAndDelete
+func SyncMapLoadAndDelete(m *sync.Map, key interface{}) (interface{}, bool) {
+	g := syncMapOf(m)
+	if i := g.find(key); i >= 0 {
+		v := g.vals[i]
+		g.keys = append(g.keys[:i], g.keys[i+1:]...)
+		g.vals = append(g.vals[:i], g.vals[i+1:]...)
+		return v, true
+	}
+	return nil, false
+}
+
+//verif:replace (*sync.Map).Range
+func SyncMapRange(m *sync.Map, f func(key, value interface{}) bool) {
+	g := syncMapOf(m)
+	for i := range g.keys {
+		if !f(g.keys[i], g.vals[i]) {
+			return
+		}
+	}
+}
+
+// ---------- sync.RWMutex: writers and readers as one mutex (sequential mode has one thread) ----------
+
+var rwHeld = map[*sync.RWMutex]int{}
+
+//verif:replace (*sync.RWMutex).Lock
+func RWMutexLock(m *sync.RWMutex) {
+	if rwHeld[m] != 0 {
+		LockErrors = append(LockErrors, "lock of a rwmutex that is already held")
+		Stop("deadlock: Lock on a RWMutex that is held and never released")
+	}
+	rwHeld[m] = -1
+}
+
+//verif:replace (*sync.RWMutex).Unlock
+func RWMutexUnlock(m *sync.RWMutex) {
+	if rwHeld[m] != -1 {
+		panic("sync: Unlock of unlocked RWMutex")
+	}
+	rwHeld[m] = 0
+}
+
+//verif:replace (*sync.RWMutex).RLock
+func RWMutexRLock(m *sync.RWMutex) {
+	if rwHeld[m] < 0 {
+		LockErrors = append(LockErrors, "rlock of a rwmutex that is write-locked")
+		Stop("deadlock: RLock on a RWMutex that is write-locked and never released")
+	}
+	rwHeld[m]++
+}
+
+//verif:replace (*sync.RWMutex).RUnlock
+func RWMutexRUnlock(m *sync.RWMutex) {
+	if rwHeld[m] <= 0 {
+		panic("sync: RUnlock of unlocked RWMutex")
+	}
+	rwHeld[m]--
+}
